@@ -31,6 +31,8 @@ RULE = ("case = one call of finite_difference on a freshly built program: family
         "kinds x dtype x knob x options; non-trivial = at least one perturbed entry was reported and judged")
 EXHAUSTIVE = {"quick": False, "thorough": False}
 ASSUMPTIONS = [
+    "bounds: signals of 1..9 entries (scalars, vectors <=5, matrices <=3x3), 1..3 inputs and outputs per module, networks "
+    "of 2..4 modules (optionally one nested Network), dx in 1e-4..1e-8, tol in 1e-5..1e-2; quick 3766 cases, thorough 92180",
     "analytical value: |reported - reference| <= 1e-12*(sum|J|^T|w| + |value|): two different derivative codes "
     "(transposed formula in the module, Jacobian contraction in the oracle) and the Signal accumulation order differ by "
     "n*eps with n<=50 terms; 1e-12 leaves a factor >100",
